@@ -245,6 +245,8 @@ def admits_gen(base, args, v, env):
     if isinstance(v, cabc.Mapping):
       if len(args) == 2:
         return all(admits(args[0], a, env) and admits(args[1], b, env) for a, b in v.items())
+      if len(args) == 1:   # a mapping seen as Iterable/Collection/Container[K]: its keys
+        return all(admits(args[0], a, env) for a in v)
       return True
     if isinstance(v, (list, set, frozenset, tuple, range, cabc.KeysView, cabc.ValuesView)):
       if len(args) == 1:
